@@ -1,7 +1,706 @@
-(** Proofs about Batch.v (C09, C15). *)
-From Coq Require Import ZArith List Bool Lia.
+(** Proofs about Batch.v (C09: batch semantics; C15: placeholder scoping). *)
+From Coq Require Import ZArith List Bool Lia Sorted.
 From KV Require Import Negotiate Batch.
 Import ListNotations.
 Open Scope Z_scope.
 
-Lemma placeholder_true : True. Proof. exact I. Qed.
+(** * Generic facts about [run], [pbind], [try_catch] *)
+
+Lemma prepend_nil {R} (o : outcome R) : prepend [] o = o.
+Proof. destruct o; reflexivity. Qed.
+
+Lemma prepend_app {R} a b (o : outcome R) : prepend a (prepend b o) = prepend (a ++ b) o.
+Proof. destruct o; cbn [prepend]; rewrite app_assoc; reflexivity. Qed.
+
+Lemma run_bind {A B} (p : prog A) (f : A -> prog B) : forall h,
+  run (pbind p f) h =
+  match run p h with
+  | Done a h' log => prepend log (run (f a) h')
+  | Panicked pv h' log => Panicked pv h' log
+  end.
+Proof.
+  induction p as [a|k IH|l k IH|l v k IH|e k IH|pv]; intros h; cbn [pbind run].
+  - rewrite prepend_nil. reflexivity.
+  - apply IH.
+  - apply IH.
+  - apply IH.
+  - rewrite IH. destruct (run k h) as [a h' log|pv h' log]; cbn [prepend].
+    + rewrite prepend_app. reflexivity.
+    + reflexivity.
+  - reflexivity.
+Qed.
+
+Lemma run_try_catch {A} (p : prog A) (hd : panicval -> prog A) : forall h,
+  run (try_catch p hd) h =
+  match run p h with
+  | Done a h' log => Done a h' log
+  | Panicked pv h' log => prepend log (run (hd pv) h')
+  end.
+Proof.
+  induction p as [a|k IH|l k IH|l v k IH|e k IH|pv]; intros h; cbn [try_catch run].
+  - reflexivity.
+  - apply IH.
+  - apply IH.
+  - apply IH.
+  - rewrite IH. destruct (run k h) as [a h' log|pv h' log]; cbn [prepend].
+    + reflexivity.
+    + rewrite prepend_app. reflexivity.
+  - rewrite prepend_nil. reflexivity.
+Qed.
+
+Lemma calls_app a b : calls (a ++ b) = calls a ++ calls b.
+Proof. unfold calls. apply flat_map_app. Qed.
+Lemma rets_app a b : rets (a ++ b) = rets a ++ rets b.
+Proof. unfold rets. apply flat_map_app. Qed.
+
+(** * The accessors never emit handler events *)
+
+Lemma run_id_placeholder c h :
+  run (id_placeholder c) h = Done (match ctx_batch c with Some l => cell h l | None => [] end) h [].
+Proof. unfold id_placeholder. destruct (ctx_batch c); reflexivity. Qed.
+
+Lemma run_clear c h :
+  run (clear_id_placeholder c) h = Done tt (match ctx_batch c with Some l => upd h l [] | None => h end) [].
+Proof. unfold clear_id_placeholder. destruct (ctx_batch c); reflexivity. Qed.
+
+Lemma run_set c s h :
+  run (set_id_placeholder c s) h =
+  match ctx_batch c with Some l => Done tt (upd h l s) [] | None => Panicked PvStr h [] end.
+Proof. unfold set_id_placeholder. destruct (ctx_batch c); reflexivity. Qed.
+
+Lemma run_get_or c q h :
+  run (get_id_or_placeholder c q) h =
+  Done (if negb (str_is_empty q) then Some q
+        else let idp := match ctx_batch c with Some l => cell h l | None => [] end in
+             if negb (str_is_empty idp) then Some idp else None) h [].
+Proof.
+  unfold get_id_or_placeholder. destruct (negb (str_is_empty q)); [reflexivity|].
+  rewrite run_bind, run_id_placeholder. cbn [prepend app].
+  destruct (negb (str_is_empty _)); reflexivity.
+Qed.
+
+(* handleBatchItemError *)
+Definition failed_item (bi : ritem) (e : gerr) : ritem :=
+  {| o_op := o_op bi; o_id := o_id bi; o_status := StatusFailed; o_reason := reason_of_err e; o_pl := o_pl bi |}.
+
+Lemma run_hbie_some c bi e h :
+  run (handle_batch_item_error c bi (Some e)) h =
+  Done (failed_item bi e) (match ctx_batch c with Some l => upd h l [] | None => h end) [EvFailClear].
+Proof.
+  unfold handle_batch_item_error. rewrite run_bind, run_clear. cbn [prepend run app]. reflexivity.
+Qed.
+
+Lemma run_hbie_none c bi h : run (handle_batch_item_error c bi None) h = Done bi h [].
+Proof. reflexivity. Qed.
+
+(** * One handler invocation *)
+
+Definition resolve_cell (c : ctx) (hc : hctx) (h : heap) : str :=
+  match ctx_batch (resolve c hc) with Some l => cell h l | None => [] end.
+
+(* what a handler's program produces: no invocation event, and exactly one return event when
+   it returns or panics by itself, none when an accessor panicked under it *)
+Lemma hprog_spec c idx : forall hp h,
+  match run (run_hprog c idx hp) h with
+  | Done (rp, oe) _ log =>
+    calls log = [] /\
+    ((oe = None /\ rets log = [(idx, HOk rp)]) \/ (exists e, oe = Some e /\ rets log = [(idx, HErr rp e)]))
+  | Panicked pv _ log =>
+    calls log = [] /\ (rets log = [(idx, HPanic pv)] \/ (rets log = [] /\ pv = PvStr))
+  end.
+Proof.
+  induction hp as [o|hc k IH|hc q k IH|hc s k IH|hc k IH]; intros h; cbn [run_hprog].
+  - destruct o as [rp|rp e|pv]; cbn; (split; [reflexivity|]).
+    + left. split; reflexivity.
+    + right. exists e. split; reflexivity.
+    + left. reflexivity.
+  - rewrite run_bind, run_id_placeholder. cbn [prepend app run].
+    specialize (IH (match ctx_batch (resolve c hc) with Some l => cell h l | None => [] end) h).
+    destruct (run (run_hprog c idx (k _)) h) as [[rp oe] h' log|pv h' log]; cbn [prepend app calls rets flat_map];
+      exact IH.
+  - rewrite run_bind, run_get_or. cbn [prepend app run].
+    match goal with |- context [run (run_hprog c idx (k ?r)) h] => specialize (IH r h) end.
+    destruct (run (run_hprog c idx (k _)) h) as [[rp oe] h' log|pv h' log]; cbn [prepend app calls rets flat_map];
+      exact IH.
+  - rewrite run_bind, run_set. destruct (ctx_batch (resolve c hc)) as [l|].
+    + cbn [prepend app run]. specialize (IH (upd h l s)).
+      destruct (run (run_hprog c idx k) (upd h l s)) as [[rp oe] h' log|pv h' log]; cbn [prepend app calls rets flat_map];
+        exact IH.
+    + cbn. split; [reflexivity|]. right. split; reflexivity.
+  - rewrite run_bind, run_clear. cbn [prepend app run].
+    match goal with |- context [run (run_hprog c idx k) ?hh] => specialize (IH hh) end.
+    destruct (run (run_hprog c idx k) _) as [[rp oe] h' log|pv h' log]; cbn [prepend app calls rets flat_map];
+      exact IH.
+Qed.
+
+(** * One batch item *)
+
+Definition init_resp (bi : item) : ritem :=
+  {| o_op := i_op bi; o_id := i_id bi; o_status := 0; o_reason := 0; o_pl := RNil |}.
+
+Lemma call_spec cfg c i bi resp h :
+  match run (dop x <- call_handler cfg c i bi ;; Ret (set_pl resp (fst x), snd x)) h with
+  | Done (r, oe) _ log =>
+    calls log = [i] /\
+    ((oe = None /\ exists rp, rets log = [(i, HOk rp)] /\ r = set_pl resp rp) \/
+     (exists e rp, oe = Some e /\ rets log = [(i, HErr rp e)] /\ r = set_pl resp rp))
+  | Panicked pv _ log =>
+    calls log = [i] /\ (rets log = [(i, HPanic pv)] \/ (rets log = [] /\ pv = PvStr))
+  end.
+Proof.
+  rewrite run_bind. unfold call_handler. cbn [run].
+  pose proof (hprog_spec c i (handler cfg i (i_op bi) (i_pl bi)) h) as H.
+  destruct (run (run_hprog c i _) h) as [[rp oe] h' log|pv h' log]; cbn [prepend run app fst snd].
+  - destruct H as [Hc Hr]. rewrite app_nil_r. cbn [calls flat_map app]. fold (calls log). rewrite Hc.
+    split; [reflexivity|]. cbn [rets flat_map app]. fold (rets log).
+    destruct Hr as [[-> Hr]|[e [-> Hr]]].
+    + left. split; [reflexivity|]. exists rp. split; [exact Hr|reflexivity].
+    + right. exists e, rp. repeat split; assumption.
+  - destruct H as [Hc Hr]. cbn [calls flat_map app]. fold (calls log). rewrite Hc.
+    split; [reflexivity|]. cbn [rets flat_map app]. fold (rets log). exact Hr.
+Qed.
+
+(* the result of an item: echo, at most one invocation, and the mapping from what the handler
+   did (or from the reason no handler ran) to status / reason / payload *)
+Definition item_post (cfg : config) (i : Z) (bi : item) (r : ritem) (log : list event) : Prop :=
+  o_op r = i_op bi /\ o_id r = i_id bi /\
+  calls log = (if dispatches cfg bi then [i] else []) /\
+  ((exists o, rets log = [(i, o)] /\ dispatches cfg bi = true /\
+              o_status r = status_of o /\ o_reason r = reason_of o /\ o_pl r = payload_of o)
+   \/ (rets log = [] /\ dispatches cfg bi = true /\
+       o_status r = StatusFailed /\ o_reason r = ReasonGeneralFailure /\ o_pl r = RNil)
+   \/ (rets log = [] /\ dispatches cfg bi = false /\
+       ((i_ext bi = Some true /\ o_status r = StatusFailed /\ o_reason r = ReasonFeatureNotSupported /\ o_pl r = RNil)
+        \/ (i_ext bi <> Some true /\ exists vs, i_pl bi = PDiscover vs /\ o_status r = StatusSuccess /\
+              o_reason r = 0 /\ o_pl r = RDiscover (handle_discover (supported cfg) vs))
+        \/ (i_ext bi <> Some true /\ (forall vs, i_pl bi <> PDiscover vs) /\ o_status r = StatusFailed /\
+              o_reason r = ReasonOperationNotSupported /\ o_pl r = RNil)))).
+
+Lemma calls_failclear log : calls (log ++ [EvFailClear]) = calls log.
+Proof. rewrite calls_app. cbn. apply app_nil_r. Qed.
+Lemma rets_failclear log : rets (log ++ [EvFailClear]) = rets log.
+Proof. rewrite rets_app. cbn. apply app_nil_r. Qed.
+
+Lemma item_routed cfg c i bi h :
+  dispatches cfg bi = true ->
+  exists r h' log,
+    run (dop x <- try_catch (dop x <- call_handler cfg c i bi ;; Ret (set_pl (init_resp bi) (fst x), snd x))
+               (fun pv => dop r <- handle_batch_item_error c (init_resp bi) (Some (panic_to_err pv)) ;; Ret (r, None)) ;;
+         handle_batch_item_error c (fst x) (snd x)) h = Done r h' log /\ item_post cfg i bi r log.
+Proof.
+  intros Hd. rewrite run_bind, run_try_catch.
+  pose proof (call_spec cfg c i bi (init_resp bi) h) as H.
+  destruct (run (dop x <- call_handler cfg c i bi ;; Ret (set_pl (init_resp bi) (fst x), snd x)) h)
+    as [[r0 oe] h1 log1|pv h1 log1].
+  - destruct H as [Hc [[-> [rp [Hr ->]]]|[e [rp [-> [Hr ->]]]]]]; cbn [fst snd].
+    + rewrite run_hbie_none. cbn [prepend]. rewrite app_nil_r.
+      eexists _, _, _. split; [reflexivity|].
+      unfold item_post. rewrite Hd, Hc. repeat split; try reflexivity.
+      left. exists (HOk rp). repeat split; try assumption; reflexivity.
+    + rewrite run_hbie_some. cbn [prepend].
+      eexists _, _, _. split; [reflexivity|].
+      unfold item_post. rewrite Hd, calls_failclear, rets_failclear, Hc. repeat split; try reflexivity.
+      left. exists (HErr rp e). repeat split; try assumption; reflexivity.
+  - destruct H as [Hc Hr]. rewrite run_bind, run_hbie_some. cbn [prepend run app fst snd].
+    rewrite run_hbie_none. cbn [prepend]. rewrite app_nil_r.
+    eexists _, _, _. split; [reflexivity|].
+    unfold item_post. rewrite Hd, calls_failclear, rets_failclear, Hc. repeat split; try reflexivity.
+    destruct Hr as [Hr|[Hr ->]].
+    + left. exists (HPanic pv). repeat split; try assumption; reflexivity.
+    + right. left. repeat split; try assumption; reflexivity.
+Qed.
+
+Ltac item_fin := repeat split; try reflexivity; try congruence; try (intros ?; congruence).
+
+Lemma item_spec cfg c i bi h :
+  exists r h' log, run (execute_item_mw cfg c i bi) h = Done r h' log /\ item_post cfg i bi r log.
+Proof.
+  unfold execute_item_mw, execute_item. fold (init_resp bi).
+  destruct (i_ext bi) as [[|]|] eqn:Hext.
+  1: { (* critical extension *)
+    rewrite run_bind. cbn [try_catch run prepend fst snd]. rewrite run_hbie_some. cbn [app].
+    eexists _, _, _. split; [reflexivity|].
+    unfold item_post, dispatches. rewrite Hext. cbn. repeat split.
+    right. right. repeat split. left. repeat split. }
+  all: destruct (routed cfg (i_op bi)) eqn:Hr.
+  1,3: assert (Hd : dispatches cfg bi = true) by (unfold dispatches; rewrite Hext; exact Hr);
+       destruct (i_pl bi); apply item_routed; exact Hd.
+  all: assert (Hd : dispatches cfg bi = false) by (unfold dispatches; rewrite Hext; exact Hr).
+  all: destruct (i_pl bi) as [|vs|k] eqn:Hpl; rewrite run_bind; cbn [try_catch run prepend fst snd].
+  all: try rewrite run_hbie_some; try rewrite run_hbie_none; cbn [app].
+  all: eexists _, _, _; (split; [reflexivity|]); unfold item_post; rewrite Hd; cbn; repeat split.
+  all: right; right; repeat split.
+  1,3,4,6: right; right; item_fin.
+  all: right; left; split; [congruence|]; exists vs; item_fin.
+Qed.
+
+(** * The item loop *)
+
+Definition stopflag (eco : Z) (r : ritem) : bool := (o_status r =? StatusFailed) && (eco =? OptStop).
+
+(* the shape of every execution of the loop, with the monad gone *)
+Inductive loop_rel (cfg : config) (eco : Z) : Z -> bool -> list item -> list ritem -> list event -> Prop :=
+| lr_nil i st : loop_rel cfg eco i st [] [] []
+| lr_skip i bi rest rs log :
+    loop_rel cfg eco (i + 1) true rest rs log ->
+    loop_rel cfg eco i true (bi :: rest) (canceled bi :: rs) log
+| lr_exec i bi rest r log1 rs log2 :
+    item_post cfg i bi r log1 ->
+    loop_rel cfg eco (i + 1) (stopflag eco r) rest rs log2 ->
+    loop_rel cfg eco i false (bi :: rest) (r :: rs) (log1 ++ log2).
+
+Lemma loop_run cfg c eco : forall items i st h,
+  exists rs h' log, run (item_loop cfg c eco i st items) h = Done rs h' log /\ loop_rel cfg eco i st items rs log.
+Proof.
+  induction items as [|bi rest IH]; intros i st h; cbn [item_loop].
+  - eexists _, _, _. split; [reflexivity|constructor].
+  - destruct st.
+    + rewrite run_bind. destruct (IH (i + 1) true h) as [rs [h' [log [Hrun Hrel]]]]. rewrite Hrun.
+      cbn [prepend run]. rewrite app_nil_r. eexists _, _, _. split; [reflexivity|]. constructor. exact Hrel.
+    + rewrite run_bind. destruct (item_spec cfg c i bi h) as [r [h1 [log1 [Hrun1 Hpost]]]]. rewrite Hrun1.
+      rewrite run_bind. fold (stopflag eco r).
+      destruct (IH (i + 1) (stopflag eco r) h1) as [rs [h2 [log2 [Hrun2 Hrel]]]]. rewrite Hrun2.
+      cbn [prepend run]. rewrite app_nil_r. eexists _, _, _. split; [reflexivity|].
+      constructor; assumption.
+Qed.
+
+Definition echoes (bi : item) (r : ritem) : Prop := o_op r = i_op bi /\ o_id r = i_id bi.
+
+Lemma loop_echo cfg eco i st items rs log :
+  loop_rel cfg eco i st items rs log -> Forall2 echoes items rs.
+Proof.
+  induction 1 as [| |i bi rest r log1 rs log2 Hpost _ IH]; constructor; try assumption.
+  - split; reflexivity.
+  - destruct Hpost as [Ho [Hi _]]. split; assumption.
+Qed.
+
+Lemma item_calls cfg i bi r log : item_post cfg i bi r log -> calls log = if dispatches cfg bi then [i] else [].
+Proof. intros [_ [_ [H _]]]. exact H. Qed.
+
+(* a stopped loop executes nothing and cancels everything *)
+Lemma loop_stopped cfg eco i items rs log :
+  loop_rel cfg eco i true items rs log -> log = [] /\ rs = map canceled items.
+Proof.
+  remember true as st eqn:Hst. induction 1 as [| i bi rest rs log _ IH |]; try discriminate.
+  - split; reflexivity.
+  - destruct (IH Hst) as [-> ->]. split; reflexivity.
+Qed.
+
+Lemma loop_calls_range cfg eco i st items rs log :
+  loop_rel cfg eco i st items rs log ->
+  Forall (fun x => i <= x < i + Z.of_nat (length items)) (calls log) /\ StronglySorted Z.lt (calls log).
+Proof.
+  induction 1 as [i st|i bi rest rs log _ IH|i bi rest r log1 rs log2 Hpost _ IH].
+  - split; constructor.
+  - destruct IH as [IH1 IH2]. split; [|exact IH2].
+    eapply Forall_impl; [|exact IH1]. cbn [length]. intros x Hx. lia.
+  - destruct IH as [IH1 IH2]. rewrite calls_app, (item_calls _ _ _ _ _ Hpost).
+    assert (Hrest : Forall (fun x => i <= x < i + Z.of_nat (length (bi :: rest))) (calls log2)).
+    { eapply Forall_impl; [|exact IH1]. cbn [length]. intros x Hx. lia. }
+    destruct (dispatches cfg bi); cbn [app].
+    + split.
+      * constructor; [cbn [length]; lia|exact Hrest].
+      * constructor; [exact IH2|]. eapply Forall_impl; [|exact IH1]. intros x Hx. cbv beta in Hx. lia.
+    + split; assumption.
+Qed.
+
+Lemma in_calls_item cfg i bi r log x :
+  item_post cfg i bi r log -> In x (calls log) -> x = i /\ dispatches cfg bi = true.
+Proof.
+  intros Hpost Hin. rewrite (item_calls _ _ _ _ _ Hpost) in Hin.
+  destruct (dispatches cfg bi); cbn in Hin; [|contradiction].
+  destruct Hin as [<-|[]]. split; reflexivity.
+Qed.
+
+(* Stop: once an item is reported failed, nothing after it runs and everything after it is failed *)
+Lemma loop_stop cfg i st items rs log :
+  loop_rel cfg OptStop i st items rs log ->
+  forall a ra, nth_error rs a = Some ra -> o_status ra = StatusFailed ->
+  forall b, (a < b)%nat ->
+    ~ In (i + Z.of_nat b) (calls log) /\
+    (forall rb, nth_error rs b = Some rb -> o_status rb = StatusFailed).
+Proof.
+  induction 1 as [i st|i bi rest rs log Hrel IH|i bi rest r log1 rs log2 Hpost Hrel IH]; intros a ra Ha Hfa b Hab.
+  - destruct a; discriminate.
+  - destruct (loop_stopped _ _ _ _ _ _ Hrel) as [-> ->]. split; [intros []|].
+    intros rb Hb. destruct b as [|b]; [lia|]. cbn [nth_error] in Hb.
+    rewrite nth_error_map in Hb. destruct (nth_error rest b); [|discriminate].
+    cbn in Hb. injection Hb as <-. reflexivity.
+  - destruct b as [|b]; [lia|]. destruct a as [|a].
+    + cbn [nth_error] in Ha. injection Ha as ->.
+      assert (Hsf : stopflag OptStop ra = true).
+      { unfold stopflag. rewrite Hfa. reflexivity. }
+      rewrite Hsf in Hrel. destruct (loop_stopped _ _ _ _ _ _ Hrel) as [-> ->]. rewrite app_nil_r. split.
+      * intros Hin. destruct (in_calls_item _ _ _ _ _ _ Hpost Hin) as [Hx _]. lia.
+      * intros rb Hb. cbn [nth_error] in Hb. rewrite nth_error_map in Hb.
+        destruct (nth_error rest b); [|discriminate]. cbn in Hb. injection Hb as <-. reflexivity.
+    + cbn [nth_error] in Ha. assert (Hab' : (a < b)%nat) by lia.
+      destruct (IH a ra Ha Hfa b Hab') as [H1 H2]. split.
+      * rewrite calls_app. intros Hin. apply in_app_or in Hin. destruct Hin as [Hin|Hin].
+        -- destruct (in_calls_item _ _ _ _ _ _ Hpost Hin) as [Hx _]. lia.
+        -- apply H1. replace (i + 1 + Z.of_nat b) with (i + Z.of_nat (S b)) by lia. exact Hin.
+      * intros rb Hb. cbn [nth_error] in Hb. apply H2. exact Hb.
+Qed.
+
+(* an item is executed iff it can reach a handler, as long as the loop has not been stopped before it *)
+Lemma loop_exec_iff cfg eco i items rs log :
+  loop_rel cfg eco i false items rs log ->
+  forall j bj, nth_error items j = Some bj ->
+  (eco <> OptStop \/ forall a ra, (a < j)%nat -> nth_error rs a = Some ra -> o_status ra <> StatusFailed) ->
+  (In (i + Z.of_nat j) (calls log) <-> dispatches cfg bj = true).
+Proof.
+  remember false as st eqn:Hst. intros Hrel. revert Hst.
+  induction Hrel as [i st|i bi rest rs log Hrel IH|i bi rest r log1 rs log2 Hpost Hrel IH]; intros Hst j bj Hj Hpre.
+  - destruct j; discriminate.
+  - discriminate.
+  - destruct (loop_calls_range _ _ _ _ _ _ _ Hrel) as [Hrange _]. rewrite Forall_forall in Hrange.
+    destruct j as [|j].
+    + cbn [nth_error] in Hj. injection Hj as ->. rewrite calls_app, (item_calls _ _ _ _ _ Hpost).
+      replace (i + Z.of_nat 0) with i by lia. split.
+      * intros Hin. apply in_app_or in Hin. destruct Hin as [Hin|Hin].
+        -- destruct (dispatches cfg bj); [reflexivity|destruct Hin].
+        -- specialize (Hrange _ Hin). lia.
+      * intros ->. left. reflexivity.
+    + cbn [nth_error] in Hj.
+      assert (Hsf : stopflag eco r = false).
+      { unfold stopflag. destruct Hpre as [Hne|Hall].
+        - destruct (eco =? OptStop) eqn:E; [apply Z.eqb_eq in E; contradiction|apply andb_false_r].
+        - specialize (Hall O r (Nat.lt_0_succ j) eq_refl).
+          destruct (o_status r =? StatusFailed) eqn:E; [apply Z.eqb_eq in E; contradiction|reflexivity]. }
+      rewrite Hsf in Hrel, IH. specialize (IH eq_refl j bj Hj).
+      assert (Hpre' : eco <> OptStop \/ forall a ra, (a < j)%nat -> nth_error rs a = Some ra -> o_status ra <> StatusFailed).
+      { destruct Hpre as [Hne|Hall]; [left; exact Hne|right].
+        intros a ra Ha Hn. apply (Hall (S a) ra); [lia|exact Hn]. }
+      specialize (IH Hpre'). rewrite <- IH. rewrite calls_app.
+      replace (i + 1 + Z.of_nat j) with (i + Z.of_nat (S j)) by lia. split.
+      * intros Hin. apply in_app_or in Hin. destruct Hin as [Hin|Hin]; [|exact Hin].
+        destruct (in_calls_item _ _ _ _ _ _ Hpost Hin) as [Hx _]. lia.
+      * intros Hin. apply in_or_app. right. exact Hin.
+Qed.
+
+(* what each invoked handler did is what its item reports *)
+Lemma loop_rets cfg eco i st items rs log :
+  loop_rel cfg eco i st items rs log ->
+  forall j o, In (j, o) (rets log) ->
+  exists k r, j = i + Z.of_nat k /\ nth_error rs k = Some r /\
+              o_status r = status_of o /\ o_reason r = reason_of o /\ o_pl r = payload_of o.
+Proof.
+  induction 1 as [i st|i bi rest rs log Hrel IH|i bi rest r log1 rs log2 Hpost Hrel IH]; intros j o Hin.
+  - destruct Hin.
+  - destruct (IH j o Hin) as [k [r [Hj [Hn Hr]]]]. exists (S k), r. repeat split; try apply Hr; [lia|exact Hn].
+  - rewrite rets_app in Hin. apply in_app_or in Hin. destruct Hin as [Hin|Hin].
+    + destruct Hpost as [_ [_ [_ [[o' [Hr [_ Hres]]]|[[Hr _]|[Hr _]]]]]]; rewrite Hr in Hin; try destruct Hin.
+      * injection H as <- <-. exists O, r. split; [lia|]. split; [reflexivity|exact Hres].
+      * destruct H.
+    + destruct (IH j o Hin) as [k [r' [Hj [Hn Hr]]]]. exists (S k), r'. repeat split; try apply Hr; [lia|exact Hn].
+Qed.
+
+(* an item that no handler ran for is never reported successful, except the built-in version discovery *)
+Lemma loop_unexecuted cfg eco i st items rs log :
+  loop_rel cfg eco i st items rs log ->
+  forall j bj rj, nth_error items j = Some bj -> nth_error rs j = Some rj ->
+  ~ In (i + Z.of_nat j) (calls log) ->
+  (o_status rj = StatusFailed /\ o_pl rj = RNil) \/
+  (exists vs, i_pl bj = PDiscover vs /\ routed cfg (i_op bj) = false /\ o_status rj = StatusSuccess /\
+              o_pl rj = RDiscover (handle_discover (supported cfg) vs)).
+Proof.
+  induction 1 as [i st|i bi rest rs log Hrel IH|i bi rest r log1 rs log2 Hpost Hrel IH]; intros j bj rj Hj Hr Hnin.
+  - destruct j; discriminate.
+  - destruct j as [|j]; cbn [nth_error] in Hj, Hr.
+    + injection Hr as <-. left. split; reflexivity.
+    + apply (IH j bj rj Hj Hr). replace (i + 1 + Z.of_nat j) with (i + Z.of_nat (S j)) by lia. exact Hnin.
+  - rewrite calls_app in Hnin. destruct j as [|j]; cbn [nth_error] in Hj, Hr.
+    + injection Hj as ->. injection Hr as ->.
+      destruct Hpost as [_ [_ [Hc Hcase]]].
+      assert (Hd : dispatches cfg bj = false).
+      { destruct (dispatches cfg bj); [|reflexivity]. exfalso. apply Hnin. apply in_or_app. left.
+        rewrite Hc. left. lia. }
+      destruct Hcase as [[o [_ [Hd' _]]]|[[_ [Hd' _]]|[_ [_ Hcase]]]]; try congruence.
+      destruct Hcase as [[_ [Hs [_ Hp]]]|[[Hne [vs [Hpl [Hs [_ Hp]]]]]|[_ [_ [Hs [_ Hp]]]]]].
+      * left. split; assumption.
+      * right. exists vs. repeat split; try assumption.
+        unfold dispatches in Hd. destruct (i_ext bj) as [[|]|]; congruence.
+      * left. split; assumption.
+    + apply (IH j bj rj Hj Hr). intros Hin. apply Hnin. apply in_or_app. right.
+      replace (i + Z.of_nat (S j)) with (i + 1 + Z.of_nat j) by lia. exact Hin.
+Qed.
+
+(** * The whole request *)
+
+Definition accepted (cfg : config) (req : request) : Prop :=
+  vmem (h_ver (r_hdr req)) (supported cfg) = true /\
+  h_opt (r_hdr req) <> OptUndo /\
+  h_count (r_hdr req) = Z.of_nat (length (r_items req)).
+
+Definition rejected (cfg : config) (req : request) : Prop :=
+  vmem (h_ver (r_hdr req)) (supported cfg) = false \/
+  h_opt (r_hdr req) = OptUndo \/
+  h_count (r_hdr req) <> Z.of_nat (length (r_items req)).
+
+Definition eco_of (req : request) : Z :=
+  if h_opt (r_hdr req) >? 0 then h_opt (r_hdr req) else OptContinue.
+
+Lemma run_handle_request cfg parent req h :
+  run (handle_request cfg parent (Some req)) h =
+  match run (handle_request_inner cfg (CBatch (length h) :: parent) req) (h ++ [[]]) with
+  | Done (inl resp) h' log => Done resp h' log
+  | Done (inr e) h' log => prepend log (run (handle_message_error (CBatch (length h) :: parent) (Some req) e) h')
+  | Panicked pv h' log => Panicked pv h' log
+  end.
+Proof.
+  unfold handle_request, new_batch_context. cbn [pbind run]. rewrite run_bind.
+  destruct (run (handle_request_inner _ _ _) _) as [[resp|e] h' log|pv h' log]; cbn [prepend run].
+  - rewrite app_nil_r. reflexivity.
+  - reflexivity.
+  - reflexivity.
+Qed.
+
+Lemma inner_accepted cfg c req h :
+  accepted cfg req ->
+  exists rs h' log,
+    run (handle_request_inner cfg c req) h =
+      Done (inl {| rs_ver := h_ver (r_hdr req); rs_count := h_count (r_hdr req); rs_items := rs |}) h' log /\
+    loop_rel cfg (eco_of req) 0 false (r_items req) rs log.
+Proof.
+  intros [Hv [Hu Hc]]. unfold handle_request_inner. rewrite Hv. cbn [negb].
+  assert (Hundo : (h_opt (r_hdr req) >? 0) && (h_opt (r_hdr req) =? OptUndo) = false).
+  { destruct (h_opt (r_hdr req) =? OptUndo) eqn:E; [apply Z.eqb_eq in E; contradiction|apply andb_false_r]. }
+  rewrite Hundo. rewrite Hc, Z.eqb_refl. cbn [negb]. rewrite run_bind. fold (eco_of req).
+  destruct (loop_run cfg c (eco_of req) (r_items req) 0 false h) as [rs [h' [log [Hrun Hrel]]]].
+  rewrite Hrun. cbn [prepend run]. rewrite app_nil_r, <- Hc.
+  eexists _, _, _. split; [reflexivity|exact Hrel].
+Qed.
+
+Lemma inner_rejected cfg c req h :
+  rejected cfg req ->
+  exists reason, run (handle_request_inner cfg c req) h = Done (inr (EKmip reason)) h [] /\
+                 (reason = ReasonInvalidMessage \/ reason = ReasonFeatureNotSupported).
+Proof.
+  intros Hrej. unfold handle_request_inner.
+  destruct (vmem (h_ver (r_hdr req)) (supported cfg)) eqn:Hv; cbn [negb].
+  2: { eexists. split; [reflexivity|left; reflexivity]. }
+  destruct ((h_opt (r_hdr req) >? 0) && (h_opt (r_hdr req) =? OptUndo)) eqn:Hu.
+  { eexists. split; [reflexivity|right; reflexivity]. }
+  destruct (h_count (r_hdr req) =? Z.of_nat (length (r_items req))) eqn:Hc; cbn [negb].
+  2: { eexists. split; [reflexivity|left; reflexivity]. }
+  exfalso. destruct Hrej as [H|[H|H]].
+  - congruence.
+  - rewrite H in Hu. discriminate.
+  - apply Z.eqb_eq in Hc. contradiction.
+Qed.
+
+Lemma accepted_or_rejected cfg req : accepted cfg req \/ rejected cfg req.
+Proof.
+  unfold accepted, rejected.
+  destruct (vmem (h_ver (r_hdr req)) (supported cfg)); [|right; left; reflexivity].
+  destruct (Z.eq_dec (h_opt (r_hdr req)) OptUndo) as [E|E]; [right; right; left; exact E|].
+  destruct (Z.eq_dec (h_count (r_hdr req)) (Z.of_nat (length (r_items req)))) as [E2|E2].
+  - left. repeat split; assumption.
+  - right. right. right. exact E2.
+Qed.
+
+(* master lemmas *)
+Lemma request_accepted cfg parent req h :
+  accepted cfg req ->
+  exists rs h' log,
+    run (handle_request cfg parent (Some req)) h =
+      Done {| rs_ver := h_ver (r_hdr req); rs_count := h_count (r_hdr req); rs_items := rs |} h' log /\
+    loop_rel cfg (eco_of req) 0 false (r_items req) rs log.
+Proof.
+  intros Hacc. rewrite run_handle_request.
+  destruct (inner_accepted cfg (CBatch (length h) :: parent) req (h ++ [[]]) Hacc) as [rs [h' [log [Hrun Hrel]]]].
+  rewrite Hrun. eexists _, _, _. split; [reflexivity|exact Hrel].
+Qed.
+
+Lemma request_rejected cfg parent req h :
+  rejected cfg req ->
+  exists reason h',
+    run (handle_request cfg parent (Some req)) h =
+      Done {| rs_ver := if ver_eqb (h_ver (r_hdr req)) ver_zero then v1_0 else h_ver (r_hdr req);
+              rs_count := 1;
+              rs_items := [{| o_op := 0; o_id := None; o_status := StatusFailed; o_reason := reason; o_pl := RNil |}] |}
+           h' [EvFailClear] /\
+    (reason = ReasonInvalidMessage \/ reason = ReasonFeatureNotSupported).
+Proof.
+  intros Hrej. rewrite run_handle_request.
+  destruct (inner_rejected cfg (CBatch (length h) :: parent) req (h ++ [[]]) Hrej) as [reason [Hrun Hreason]].
+  rewrite Hrun. unfold handle_message_error. rewrite prepend_nil, run_bind, run_hbie_some.
+  cbn [prepend run app]. exists reason. eexists. split; [reflexivity|exact Hreason].
+Qed.
+
+Lemma forall2_len {A B} (P : A -> B -> Prop) l1 l2 : Forall2 P l1 l2 -> length l1 = length l2.
+Proof. induction 1; cbn [length]; congruence. Qed.
+
+(** * C09 theorems *)
+
+Theorem batch_total cfg parent req h :
+  exists resp h' log, run (handle_request cfg parent (Some req)) h = Done resp h' log.
+Proof.
+  destruct (accepted_or_rejected cfg req) as [Ha|Hr].
+  - destruct (request_accepted cfg parent req h Ha) as [rs [h' [log [Hrun _]]]]. eexists _, _, _. exact Hrun.
+  - destruct (request_rejected cfg parent req h Hr) as [reason [h' [Hrun _]]]. eexists _, _, _. exact Hrun.
+Qed.
+
+Ltac use_accepted cfg parent req h Hacc Hrun rs Hrel :=
+  let h1 := fresh "h1" in let log1 := fresh "log1" in let Hrun1 := fresh "Hrun1" in
+  destruct (request_accepted cfg parent req h Hacc) as [rs [h1 [log1 [Hrun1 Hrel]]]];
+  rewrite Hrun1 in Hrun; injection Hrun as <- <- <-.
+
+Theorem batch_shape cfg parent req h resp h' log :
+  vmem (h_ver (r_hdr req)) (supported cfg) = true ->
+  h_opt (r_hdr req) <> OptUndo ->
+  h_count (r_hdr req) = Z.of_nat (length (r_items req)) ->
+  run (handle_request cfg parent (Some req)) h = Done resp h' log ->
+  rs_ver resp = h_ver (r_hdr req) /\
+  rs_count resp = Z.of_nat (length (r_items req)) /\
+  length (rs_items resp) = length (r_items req) /\
+  Forall2 (fun bi r => o_op r = i_op bi /\ o_id r = i_id bi) (r_items req) (rs_items resp).
+Proof.
+  intros Hv Hu Hc Hrun. assert (Hacc : accepted cfg req) by (repeat split; assumption).
+  use_accepted cfg parent req h Hacc Hrun rs Hrel. cbn [rs_ver rs_count rs_items].
+  pose proof (loop_echo _ _ _ _ _ _ _ Hrel) as He.
+  repeat split; try assumption.
+  symmetry. eapply forall2_len. exact He.
+Qed.
+
+Theorem batch_once_in_order cfg parent req h resp h' log :
+  run (handle_request cfg parent (Some req)) h = Done resp h' log ->
+  StronglySorted Z.lt (calls log) /\
+  forall x, In x (calls log) -> 0 <= x < Z.of_nat (length (r_items req)).
+Proof.
+  intros Hrun. destruct (accepted_or_rejected cfg req) as [Hacc|Hrej].
+  - use_accepted cfg parent req h Hacc Hrun rs Hrel.
+    destruct (loop_calls_range _ _ _ _ _ _ _ Hrel) as [Hrange Hsorted]. split; [exact Hsorted|].
+    rewrite Forall_forall in Hrange. intros x Hx. specialize (Hrange x Hx). lia.
+  - destruct (request_rejected cfg parent req h Hrej) as [reason [h1 [Hrun1 _]]].
+    rewrite Hrun1 in Hrun. injection Hrun as <- <- <-. cbn. split; [constructor|intros x []].
+Qed.
+
+Theorem batch_stop cfg parent req h resp h' log :
+  vmem (h_ver (r_hdr req)) (supported cfg) = true ->
+  h_count (r_hdr req) = Z.of_nat (length (r_items req)) ->
+  h_opt (r_hdr req) = OptStop ->
+  run (handle_request cfg parent (Some req)) h = Done resp h' log ->
+  forall a ra, nth_error (rs_items resp) a = Some ra -> o_status ra = StatusFailed ->
+  forall b, (a < b)%nat ->
+    ~ In (Z.of_nat b) (calls log) /\
+    (forall rb, nth_error (rs_items resp) b = Some rb -> o_status rb = StatusFailed).
+Proof.
+  intros Hv Hc Hs Hrun. assert (Hacc : accepted cfg req).
+  { repeat split; try assumption. rewrite Hs. discriminate. }
+  use_accepted cfg parent req h Hacc Hrun rs Hrel. cbn [rs_items].
+  assert (He : eco_of req = OptStop) by (unfold eco_of; rewrite Hs; reflexivity).
+  rewrite He in Hrel. intros a ra Ha Hf b Hab.
+  exact (loop_stop _ _ _ _ _ _ Hrel a ra Ha Hf b Hab).
+Qed.
+
+Theorem batch_stop_prefix cfg parent req h resp h' log :
+  vmem (h_ver (r_hdr req)) (supported cfg) = true ->
+  h_count (r_hdr req) = Z.of_nat (length (r_items req)) ->
+  h_opt (r_hdr req) = OptStop ->
+  run (handle_request cfg parent (Some req)) h = Done resp h' log ->
+  forall j bj, nth_error (r_items req) j = Some bj ->
+  (forall a ra, (a < j)%nat -> nth_error (rs_items resp) a = Some ra -> o_status ra <> StatusFailed) ->
+  (In (Z.of_nat j) (calls log) <-> dispatches cfg bj = true).
+Proof.
+  intros Hv Hc Hs Hrun. assert (Hacc : accepted cfg req).
+  { repeat split; try assumption. rewrite Hs. discriminate. }
+  use_accepted cfg parent req h Hacc Hrun rs Hrel. cbn [rs_items].
+  intros j bj Hj Hpre.
+  exact (loop_exec_iff _ _ _ _ _ _ Hrel j bj Hj (or_intror Hpre)).
+Qed.
+
+Theorem batch_continue cfg parent req h resp h' log :
+  vmem (h_ver (r_hdr req)) (supported cfg) = true ->
+  h_count (r_hdr req) = Z.of_nat (length (r_items req)) ->
+  h_opt (r_hdr req) <> OptUndo -> h_opt (r_hdr req) <> OptStop ->
+  run (handle_request cfg parent (Some req)) h = Done resp h' log ->
+  forall j bj, nth_error (r_items req) j = Some bj ->
+  (In (Z.of_nat j) (calls log) <-> dispatches cfg bj = true).
+Proof.
+  intros Hv Hc Hu Hs Hrun. assert (Hacc : accepted cfg req) by (repeat split; assumption).
+  use_accepted cfg parent req h Hacc Hrun rs Hrel.
+  assert (He : eco_of req <> OptStop).
+  { unfold eco_of. destruct (h_opt (r_hdr req) >? 0); [exact Hs|discriminate]. }
+  intros j bj Hj.
+  exact (loop_exec_iff _ _ _ _ _ _ Hrel j bj Hj (or_introl He)).
+Qed.
+
+Theorem batch_reject cfg parent req h resp h' log :
+  (vmem (h_ver (r_hdr req)) (supported cfg) = false \/
+   h_opt (r_hdr req) = OptUndo \/
+   h_count (r_hdr req) <> Z.of_nat (length (r_items req))) ->
+  run (handle_request cfg parent (Some req)) h = Done resp h' log ->
+  (exists r, rs_items resp = [r] /\ o_status r = StatusFailed /\
+             (o_reason r = ReasonInvalidMessage \/ o_reason r = ReasonFeatureNotSupported)) /\
+  rs_count resp = 1 /\ calls log = [] /\ rets log = [].
+Proof.
+  intros Hrej Hrun. destruct (request_rejected cfg parent req h Hrej) as [reason [h1 [Hrun1 Hreason]]].
+  rewrite Hrun1 in Hrun. injection Hrun as <- <- <-. cbn [rs_items rs_count]. repeat split.
+  eexists. split; [reflexivity|]. split; [reflexivity|exact Hreason].
+Qed.
+
+Theorem batch_results cfg parent req h resp h' log :
+  vmem (h_ver (r_hdr req)) (supported cfg) = true ->
+  h_opt (r_hdr req) <> OptUndo ->
+  h_count (r_hdr req) = Z.of_nat (length (r_items req)) ->
+  run (handle_request cfg parent (Some req)) h = Done resp h' log ->
+  forall j o, In (j, o) (rets log) ->
+  exists k r, j = Z.of_nat k /\ nth_error (rs_items resp) k = Some r /\
+              o_status r = status_of o /\ o_reason r = reason_of o /\ o_pl r = payload_of o.
+Proof.
+  intros Hv Hu Hc Hrun. assert (Hacc : accepted cfg req) by (repeat split; assumption).
+  use_accepted cfg parent req h Hacc Hrun rs Hrel. cbn [rs_items]. intros j o Hin.
+  destruct (loop_rets _ _ _ _ _ _ _ Hrel j o Hin) as [k [r [Hj Hrest]]].
+  exists k, r. split; [lia|exact Hrest].
+Qed.
+
+Theorem batch_unexecuted cfg parent req h resp h' log :
+  vmem (h_ver (r_hdr req)) (supported cfg) = true ->
+  h_opt (r_hdr req) <> OptUndo ->
+  h_count (r_hdr req) = Z.of_nat (length (r_items req)) ->
+  run (handle_request cfg parent (Some req)) h = Done resp h' log ->
+  forall j bj rj, nth_error (r_items req) j = Some bj -> nth_error (rs_items resp) j = Some rj ->
+  ~ In (Z.of_nat j) (calls log) ->
+  (o_status rj = StatusFailed /\ o_pl rj = RNil) \/
+  (exists vs, i_pl bj = PDiscover vs /\ routed cfg (i_op bj) = false /\ o_status rj = StatusSuccess /\
+              o_pl rj = RDiscover (handle_discover (supported cfg) vs)).
+Proof.
+  intros Hv Hu Hc Hrun. assert (Hacc : accepted cfg req) by (repeat split; assumption).
+  use_accepted cfg parent req h Hacc Hrun rs Hrel. cbn [rs_items]. intros j bj rj Hj Hr Hnin.
+  exact (loop_unexecuted _ _ _ _ _ _ _ Hrel j bj rj Hj Hr Hnin).
+Qed.
+
+(** Non-vacuity: a Stop batch whose second item fails, and a rejected Undo batch. *)
+Definition ex_cfg : config :=
+  scripted_config [(1,4); (1,3)] [10]
+    [(0, ([SSet HOwn [97]], HOk (RKey 0))); (1, ([SRead HOwn], HErr RNil (EWrap (EKmip 1)))); (2, ([], HOk RNil))].
+Definition ex_items : list item :=
+  [ {| i_op := 10; i_id := Some [1]; i_ext := None; i_pl := POther 0 |};
+    {| i_op := 10; i_id := None; i_ext := None; i_pl := POther 1 |};
+    {| i_op := 10; i_id := Some [3]; i_ext := None; i_pl := POther 2 |} ].
+Definition ex_req (opt : Z) : request :=
+  {| r_hdr := {| h_ver := (1,3); h_opt := opt; h_count := 3 |}; r_items := ex_items |}.
+
+Lemma batch_example :
+  vmem (h_ver (r_hdr (ex_req OptStop))) (supported ex_cfg) = true /\
+  h_count (r_hdr (ex_req OptStop)) = Z.of_nat (length (r_items (ex_req OptStop))) /\
+  (exists resp h' log,
+     run (handle_request ex_cfg [CConn 7] (Some (ex_req OptStop))) [] = Done resp h' log /\
+     calls log = [0; 1] /\ rets log = [(0, HOk (RKey 0)); (1, HErr RNil (EWrap (EKmip 1)))] /\
+     map o_status (rs_items resp) = [StatusSuccess; StatusFailed; StatusFailed] /\
+     map o_reason (rs_items resp) = [0; 1; ReasonCanceledByRequester]) /\
+  (exists resp h' log,
+     run (handle_request ex_cfg [CConn 7] (Some (ex_req OptContinue))) [] = Done resp h' log /\
+     calls log = [0; 1; 2] /\
+     map o_status (rs_items resp) = [StatusSuccess; StatusFailed; StatusSuccess]) /\
+  (exists resp h' log,
+     run (handle_request ex_cfg [CConn 7] (Some (ex_req OptUndo))) [] = Done resp h' log /\
+     calls log = [] /\ map o_status (rs_items resp) = [StatusFailed] /\
+     map o_reason (rs_items resp) = [ReasonFeatureNotSupported]).
+Proof.
+  split; [reflexivity|]. split; [reflexivity|]. repeat split.
+  - eexists _, _, _. split; [vm_compute; reflexivity|]. repeat split.
+  - eexists _, _, _. split; [vm_compute; reflexivity|]. repeat split.
+  - eexists _, _, _. split; [vm_compute; reflexivity|]. repeat split.
+Qed.
